@@ -172,7 +172,10 @@ def instance(B, D, variant):
                 # justification of each bracket: (A^T A)_mn = delta_mn is lemma.flipped_v_has_orthonormal_columns[m,n], (u u^T)_ij = delta_ij is a clause of the contract
                 e = B.real('cert%d%s_%d%d_%d' % (D, variant, i, j, q))
                 gsub2.append((sub(l, r), e)); efacts.append(app('=', e, '0.0'))
-            B.vc(pre + 'linear_part.columns_orthonormal[%d,%d]' % (i, j), app('=', RtR, dl(i, j)), [app('=', sub(RtR, dl(i, j)), cert)] + efacts, functions=fns, timeout=120, subst=gen2 + gsub2)
+            B.vc(pre + 'linear_part.columns_orthonormal[%d,%d].certificate_conclusion' % (i, j), app('=', RtR, dl(i, j)), [app('=', sub(RtR, dl(i, j)), cert)] + efacts, functions=fns, timeout=120, subst=gen2 + gsub2)
+            # the goal itself, stated on the result only (independent of how the code builds it): a falsification probe - a counter-model is a
+            # violation whatever the shape of the code, while its proof is the certificate chain above
+            B.vc(pre + 'linear_part.columns_orthonormal[%d,%d]' % (i, j), app('=', RtR, dl(i, j)), contract + flipfacts, functions=fns, timeout=20, subst=gen2, refute_only=True)
     # determinant: certificate  det R - 1 = dU * sum_k C_k (w_k - d v_k,last) + (d dU dV - 1),  C_k = cofactor of (k, last) in v
     def cof(M, k):
         rows = [r for r in range(D) if r != k]
@@ -192,7 +195,8 @@ def instance(B, D, variant):
         B.vc(pre + 'linear_part.determinant_is_plus_one.certificate_bracket_%d_vanishes' % q, app('=', l, r), contract + flipfacts, functions=fns, timeout=120, subst=gen2)
         e = B.real('dcert%d%s_%d' % (D, variant, q))
         gsub3.append((sub(l, r), e)); efacts3.append(app('=', e, '0.0'))
-    B.vc(pre + 'linear_part.determinant_is_plus_one', app('=', det(R, D), '1.0'), [app('=', sub(det(R, D), '1.0'), dcert)] + efacts3, functions=fns, timeout=120, subst=gen2 + gsub3)
+    B.vc(pre + 'linear_part.determinant_is_plus_one.certificate_conclusion', app('=', det(R, D), '1.0'), [app('=', sub(det(R, D), '1.0'), dcert)] + efacts3, functions=fns, timeout=120, subst=gen2 + gsub3)
+    B.vc(pre + 'linear_part.determinant_is_plus_one', app('=', det(R, D), '1.0'), contract + flipfacts, functions=fns, timeout=20, subst=gen2, refute_only=True)
     H = Hs
     gen = gen2
     facts = facts + flipfacts
